@@ -7,6 +7,7 @@ import (
 	"sort"
 	"strconv"
 	"sync"
+	"syscall"
 	"time"
 )
 
@@ -170,7 +171,10 @@ func (s *Sim) RunConcurrent(fns []func(), choose func(step int, ready []int) int
 			fn()
 		}(fn)
 	}
-	deadline := time.Now().Add(120 * time.Second)
+	// watchdog: consumed CPU time of the process, not wall-clock (a starved machine must not look like a stuck
+	// harness); the wall-clock bound is only a backstop far beyond any plausible starvation
+	cpuStart, wallStop := processCPU(), time.Now().Add(30*time.Minute)
+	expired := func() bool { return processCPU()-cpuStart > 90*time.Second || time.Now().After(wallStop) }
 	started := map[int]bool{}
 	finished := map[int]bool{}
 	step := 0
@@ -231,7 +235,7 @@ func (s *Sim) RunConcurrent(fns []func(), choose func(step int, ready []int) int
 					}
 				}
 			}
-			if time.Now().After(deadline) {
+			if expired() {
 				res.TimedOut = true
 				res.Stuck = allStacks()
 				return res // goroutines are abandoned; the caller treats the case as inconclusive
@@ -310,6 +314,15 @@ func waitCond(c *sync.Cond, d time.Duration) {
 	})
 	c.Wait()
 	t.Stop()
+}
+
+// processCPU returns the user+system CPU time this process has consumed.
+func processCPU() time.Duration {
+	var ru syscall.Rusage
+	if err := syscall.Getrusage(syscall.RUSAGE_SELF, &ru); err != nil {
+		return 0
+	}
+	return time.Duration(ru.Utime.Nano() + ru.Stime.Nano())
 }
 
 func allStacks() string {
